@@ -776,7 +776,10 @@ impl Runner {
                     }
                     return out;
                 }
-                self.fault_next_commit = Some(if *call >= 3000 {
+                self.fault_next_commit = Some(if *call == 4000 {
+                    // the write of the header page (or the wipe of its slot) fails: outcome pre-state
+                    crate::iosim::Fault::first_write_after_sync(libc::EIO)
+                } else if *call >= 3000 {
                     // the call is cut short after 72 bytes (inside the header record, if it is the header write) and then fails
                     crate::iosim::Fault::at(*call - 3000, crate::iosim::FaultMode::ShortThenErrno(72, libc::EIO))
                 } else if *call >= 2000 {
